@@ -110,6 +110,10 @@ def _cmp_leaf(path: str, exp: Any, got: Any, dtype, diffs: list[str]) -> None:
         diffs.append(f'{path}: expected {exp!r:.60}, got ndarray shape {got.shape}')
         return
     ke, kg = _scalar_kind(exp), _scalar_kind(got)
+    if ke == 'none' and kg == 'str' and got == '' and dtype is str:
+        # pinned by tests/test_storage.py::test_read_nulls; C03 lists it as a finding
+        diffs.append(f'{UNSET_STR_MARK}{path}: unset optional string read back as empty string')
+        return
     if ke != kg:
         diffs.append(f'{path}: kind {kg} ({got!r:.60}) != {ke} ({exp!r:.60})')
         return
@@ -120,8 +124,22 @@ def _cmp_leaf(path: str, exp: Any, got: Any, dtype, diffs: list[str]) -> None:
         diffs.append(f'{path}: {got!r:.80} != {exp!r:.80}')
 
 
-def compare(snap: dict[str, Any], traj, label: str = '') -> list[str]:
-    """Differences between a snapshot and a trajectory read back (empty = equal)."""
+UNSET_STR_MARK = '@unset-str@ '
+
+
+def compare(snap: dict[str, Any], traj, label: str = '',
+            strict_unset_str: bool = False) -> list[str]:
+    """Differences between a snapshot and a trajectory read back (empty = equal).
+
+    An unset optional *string* that reads back as '' is only reported when
+    ``strict_unset_str`` (C03 owns that finding; order/identity checks ignore it)."""
+    diffs = _compare(snap, traj, label)
+    if not strict_unset_str:
+        diffs = [d for d in diffs if not d.startswith(UNSET_STR_MARK)]
+    return diffs
+
+
+def _compare(snap: dict[str, Any], traj, label: str = '') -> list[str]:
     diffs: list[str] = []
     if traj is None:
         return [f'{label}got None instead of a trajectory']
